@@ -220,6 +220,7 @@ type syncScenario struct {
 	Explicit  bool                `json:"explicit_asset_list"`
 	Missing   []string            `json:"requested_but_not_in_source"`
 	StartDay  int                 `json:"default_start_day"`
+	StartHour int                 `json:"default_start_hour"` // the default start date need not be a midnight: a snapshot dated that day is then before it
 	Workers   int                 `json:"workers"`
 	Target    string              `json:"target_kind"`
 	F1        []string            `json:"fail_source_getsince"`
@@ -232,8 +233,20 @@ func mkSnap(day int) *asset.Snapshot {
 
 func genScenario(r *gen.Rand, nAssets int, target string, workers int) syncScenario {
 	sc := syncScenario{Source: map[string][]int{}, TargetLen: map[string]int{}, Workers: workers, Target: target, Explicit: r.Intn(3) > 0, StartDay: r.Range(0, 12)}
+	if r.Intn(3) == 0 {
+		sc.StartHour = r.Range(1, 23)
+	}
+	// two names with the same last path element are two assets (asked for by
+	// name: a file-system target does not list what it keeps below a directory)
+	hier := nAssets >= 2 && r.Intn(4) == 0
+	if hier {
+		sc.Explicit = true
+	}
 	for i := 0; i < nAssets; i++ {
 		name := fmt.Sprintf("a%02d%s", i, []string{"", "s", ".c", "v"}[i%4])
+		if hier && i < 2 {
+			name = []string{"hb", "grp/hb"}[i]
+		}
 		sc.Assets = append(sc.Assets, name)
 		n := r.Range(0, 20)
 		d := r.Range(0, 6)
@@ -294,6 +307,9 @@ func buildRepos(sc syncScenario) (source asset.Repository, target asset.Reposito
 	}
 	placeholder := toSet(sc.Placeholder)
 	for _, name := range sc.Assets {
+		if base := reflectBase(tgt); base != "" && strings.Contains(name, "/") {
+			os.MkdirAll(filepath.Join(base, filepath.Dir(name)), 0o700)
+		}
 		k := sc.TargetLen[name]
 		if k < 0 {
 			continue
@@ -327,6 +343,9 @@ func expectedDays(sc syncScenario, name string, f1, f2 map[string]bool) (days []
 		return prev, true
 	}
 	start := sc.StartDay
+	if sc.StartHour > 0 {
+		start++ // snapshots are dated at midnight: the one of the start day is before a start later that day
+	}
 	if len(prev) > 0 {
 		start = prev[len(prev)-1] + 1
 	}
@@ -391,7 +410,7 @@ func runSync(cc *run.Case, sc syncScenario, raceOnly bool) (map[string][]int, bo
 		s.Assets = requested
 	}
 	cc.Desc(sc)
-	runErr := s.Run(wsrc, wtgt, day0.AddDate(0, 0, sc.StartDay))
+	runErr := s.Run(wsrc, wtgt, day0.AddDate(0, 0, sc.StartDay).Add(time.Duration(sc.StartHour)*time.Hour))
 	cc.Count("sync_runs", 1)
 	fail := func(msg string) (map[string][]int, bool) {
 		cc.Viol("", fmt.Sprintf("Sync (workers=%d, target=%s): %s", sc.Workers, sc.Target, msg), sc)
@@ -456,7 +475,7 @@ func runSync(cc *run.Case, sc syncScenario, raceOnly bool) (map[string][]int, bo
 	if sc.Explicit {
 		s2.Assets = requested
 	}
-	err2 := s2.Run(wsrc, wtgt, day0.AddDate(0, 0, sc.StartDay))
+	err2 := s2.Run(wsrc, wtgt, day0.AddDate(0, 0, sc.StartDay).Add(time.Duration(sc.StartHour)*time.Hour))
 	for _, name := range sc.Assets {
 		got, _ := daysOf(tgt, name)
 		if !eqInts(got, final[name]) {
